@@ -10,13 +10,13 @@ import (
 
 // Col is one field of a RowDescription.
 type Col struct {
-	Name     string
-	Table    uint32
-	AttrNo   int16
-	OID      uint32
-	Width    int16
-	TypeMod  int32
-	Format   int16
+	Name    string
+	Table   uint32
+	AttrNo  int16
+	OID     uint32
+	Width   int16
+	TypeMod int32
+	Format  int16
 }
 
 // BMsg is one decoded backend message.
@@ -24,17 +24,17 @@ type BMsg struct {
 	Type byte
 	Body []byte
 
-	Auth     uint32            // 'R'
-	Key, Val string            // 'S'
-	Status   byte              // 'Z'
-	Cols     []Col             // 'T'
-	Row      [][]byte          // 'D' (nil entry = NULL)
-	Tag      string            // 'C'
-	Fields   map[byte]string   // 'E' / 'N'
-	FieldSeq []byte            // order of the field codes
-	OIDs     []uint32          // 't'
-	CopyFmt  byte              // 'G'
-	CopyCols []int16           // 'G'
+	Auth     uint32          // 'R'
+	Key, Val string          // 'S'
+	Status   byte            // 'Z'
+	Cols     []Col           // 'T'
+	Row      [][]byte        // 'D' (nil entry = NULL)
+	Tag      string          // 'C'
+	Fields   map[byte]string // 'E' / 'N'
+	FieldSeq []byte          // order of the field codes
+	OIDs     []uint32        // 't'
+	CopyFmt  byte            // 'G'
+	CopyCols []int16         // 'G'
 }
 
 // String renders a compact, deterministic description (used in transcripts).
